@@ -57,6 +57,7 @@ func VerifyFunction(P *Program, S *Specs, key string) (res *FuncResult) {
 	x.closures = map[*Term]*closure{}
 	x.usedFuncs = map[string]bool{}
 	x.boxed = map[*Term]Value{}
+	x.hitSites = map[string]bool{}
 	x.reveal = map[string]bool{}
 	if x.C != nil {
 		for _, r := range x.C.Reveal {
@@ -115,6 +116,13 @@ func VerifyFunction(P *Program, S *Specs, key string) (res *FuncResult) {
 	x.assumeGlobals(f0, st)
 	x.entryState = st.clone()
 	out, results := x.runBody(fn, c, params, free, st, 0)
+	if c != nil {
+		for site := range c.CallAsserts {
+			if !x.hitSites[site] {
+				fail("contract drift: %s has an assertion at call %s, but no such call site was reached", key, site)
+			}
+		}
+	}
 	if out != nil {
 		if c != nil {
 			sc := x.newSpecCtx(f0, nil, out, x.entryState)
@@ -179,7 +187,8 @@ func (o *Obligation) SMT() string {
 	var s Script
 	saved := x.reveal
 	if len(o.Reveal) > 0 {
-		x.reveal = map[string]bool{}
+		x.hitSites = map[string]bool{}
+	x.reveal = map[string]bool{}
 		for k, b := range saved {
 			x.reveal[k] = b
 		}
